@@ -3,6 +3,7 @@
 CONSTANTS
   MaxBody = 1
   QuoteAll = TRUE
+  EmptyParam = FALSE
   AllMethods = TRUE
   KF_TrailingSlash = FALSE
   Source = "all"
